@@ -7,7 +7,8 @@ Driver for C10: one operation per line on stdin, one result per line on stdout.
   rules <rule> ...                           replaces every BUILD file; a rule is
         fs|<name>|<files>|<sel>|<ign>|<incs>   lists comma separated, "-" = empty,
         bu|<name>|<deps>                       a pattern is dir:suffix:deep(0/1)
-  out del|obstruct|restore <o> | out corrupt <o> size=<n> | out chmod <o> mode=<n>
+  out del|obstruct|restore <o> | out corrupt <o> size=<n> | out chmod <o> mode=<n> | out link <o> <target>
+  cache age                                  every cache record becomes older than the expiry
   build always=<0|1> <target> ...
 
 answers: ok | noop | loaderr | ok exec=.. cache=<n> out=.. | builderr exec=.. cache=<n> out=..
@@ -90,9 +91,15 @@ def step (w : World) (line : String) : World × String :=
     | some ⟨_, .dir⟩, _ => (w, "noop")
     | _, some n => (w.apply cfg (.outCorrupt o n), "ok")
     | _, none => (w, "bad-op")
+  | ["out", "link", o, t] =>
+    match w.out.get o with
+    | some ⟨_, .dir⟩ => (w, "noop")
+    | _ => (w.apply cfg (.outLink o t), "ok")
+  | ["cache", "age"] => (w.apply cfg .cacheExpire, "ok")
   | ["out", "chmod", o, md] =>
     match w.out.get o, kvNat [md] "mode" with
     | some ⟨_, .dir⟩, _ => (w, "noop")
+    | some ⟨⟨_, _, 134218239, _⟩, _⟩, _ => (w, "noop")
     | some _, some m => (w.apply cfg (.outChmod o m), "ok")
     | none, some _ => (w, "noop")
     | _, none => (w, "bad-op")
